@@ -125,6 +125,32 @@ def check_entry(case):
                             if pa > 0 and pb > 0 and abs(float(da.partial_fluxes[k][i])) > 1e-6 * sum(map(abs, map(float, da.partial_fluxes[k]))):
                                 require(relerr(pa, pb) <= 1e-6, "curve permeance %d at point %d: %r vs %r", i + 1, k, pa, pb)
                 classes.append("curve-compared")
+        # hand-built curves in the two bases: from permeances, from fluxes, and from both
+        from pyvaporation.mixtures import get_partial_pressures as _gpp
+
+        pv_ = [(1e-2 * (1 + k), 3e-3 * (1 + 0.5 * k)) for k in range(len(ws))]
+        fl_ = [tuple(pv_[k][i] * float(_gpp(t, mix, cw[k])[i]) for i in (0, 1)) for k in range(len(ws))]
+        for label, kwargs in (("permeances", lambda: dict(permeances=[(build.permeance(a), build.permeance(b)) for a, b in pv_])),
+                              ("fluxes", lambda: dict(partial_fluxes=list(fl_))),
+                              ("fluxes+permeances", lambda: dict(partial_fluxes=list(fl_), permeances=[(build.permeance(a), build.permeance(b)) for a, b in pv_]))):
+            ca = call(build.DiffusionCurve, mixture=mix, membrane_name="M", feed_temperature=t, feed_compositions=list(cw), **kwargs())
+            cb = call(build.DiffusionCurve, mixture=mix, membrane_name="M", feed_temperature=t, feed_compositions=list(cm), **kwargs())
+            if is_raised(ca) or is_raised(cb):
+                continue
+            for k in range(len(ws)):
+                for name in ("get_separation_factor", "get_psi", "get_selectivity"):
+                    va, vb = call(lambda: float(getattr(ca, name)[k])), call(lambda: float(getattr(cb, name)[k]))
+                    if is_raised(va) or is_raised(vb):
+                        require(is_raised(va) and is_raised(vb), "DiffusionCurve built from %s: %s raises for one basis only (%r / %r)", label, name, va, vb)
+                        continue
+                    if math.isfinite(va) and math.isfinite(vb):
+                        require(abs(va - vb) <= 1e-7 * max(abs(va), abs(vb)) + 1e-9 * sum(abs(x) for x in fl_[k]) * (abs(va) if name == "get_psi" else 0.0),
+                                "DiffusionCurve built from %s: %s at point %d is %r with mass-fraction points and %r with the equivalent mole-fraction points",
+                                label, name, k, va, vb)
+                for i in (0, 1):
+                    require(relerr(ca.partial_fluxes[k][i], cb.partial_fluxes[k][i]) <= 1e-8 and relerr(ca.permeances[k][i].value, cb.permeances[k][i].value) <= 1e-8,
+                            "DiffusionCurve built from %s: flux/permeance %d at point %d differs between the two bases", label, i + 1, k)
+        classes.append("hand-built-curves")
     except EvaluationCap:
         raise Discard("evaluation cap reached (termination is C10's subject)")
     if compared == 0:
